@@ -470,14 +470,19 @@ fn pay_token(table: &HashMap<Vec<u8>, String>, data: &[u8]) -> String {
     }
 }
 
-async fn observe(st: &Store, universe: &[u64], table: &HashMap<Vec<u8>, String>) -> Observed {
+/// `touch_first`: `None` = the keyspace list is read before any keyspace is named; `Some(k)` =
+/// keyspace k alone is read first (the observable result must not depend on which keyspaces a
+/// handle has already touched - caches are filled lazily, e.g. after a reopen).
+async fn observe(st: &Store, universe: &[u64], table: &HashMap<Vec<u8>, String>, touch_first: Option<usize>) -> Observed {
     let mut o = Observed {
         sec: Sections::default(),
         raw_list: Err(()),
         mget_in_request_order: true,
         problems: Vec::new(),
     };
-    // keyspace list first, before the per-keyspace observers name any keyspace
+    if let Some(k) = touch_first {
+        let _: Result<usize, ()> = on!(st, s => s.iter_metadata(KS_NAMES[k % NKS]).await.map(|it| it.count()));
+    }
     o.raw_list = on!(st, s => s.get_keyspace_list().await);
     let mut metas: Vec<Result<Vec<(u64, u64, bool)>, ()>> = Vec::new();
     for ks in 0..NKS {
@@ -661,7 +666,7 @@ async fn run_case(case: Case, dir: PathBuf, state: Arc<Mutex<RunState>>) {
     if fresh != Ok(Vec::new()) {
         state.lock().unwrap().fail(&b, "fresh-store-lists-keyspaces", 0, format!("{fresh:?}"));
     }
-    let obs = observe(&st, &case.universe, &table).await;
+    let obs = observe(&st, &case.universe, &table, None).await;
     let mut prev = obs.sec.clone();
     {
         let mut rs = state.lock().unwrap();
@@ -708,7 +713,13 @@ async fn run_case(case: Case, dir: PathBuf, state: Arc<Mutex<RunState>>) {
             apply(&st, op).await
         };
         reference.apply(op);
-        let obs = observe(&st, &case.universe, &table).await;
+        // which keyspace (if any) is touched before the keyspace list is read: rotates with the
+        // position in the case, so that every op kind (a reopen in particular) is followed by each
+        let touch_first = match (i + case.ops.len()) % (NKS + 1) {
+            0 => None,
+            k => Some(k - 1),
+        };
+        let obs = observe(&st, &case.universe, &table, touch_first).await;
         let mut rs = state.lock().unwrap();
         rs.steps.pop();
         let tag = if res.is_ok() { "ok" } else { "err" };
